@@ -23,6 +23,7 @@ func (e *Engine) VerifyFunc(fn *ssa.Function, con *Contract) (g *Gen, err error)
 		safety:    map[string]bool{"bounds": true, "div": true, "assert": true, "panic": true, "mapwrite": true, "makeslice": true, "nilcall": true},
 		selectors: map[string]bool{},
 		localRefs: map[string]string{},
+		memLocals: map[string]bool{},
 	}
 	g.fnName = e.funcDisplayName(fn, con)
 	defer func() {
@@ -486,6 +487,16 @@ func (g *Gen) execInstr(in ssa.Instruction) error {
 		elem := x.Type().(*types.Pointer).Elem()
 		ref := g.alloc(s)
 		v := &Val{T: ref, Ty: x.Type()}
+		// a source variable that lives in memory (captured or address-taken): its
+		// current value is whatever the cell holds
+		if x.Comment != "" {
+			for spec, obj := range g.localObjs {
+				if obj.Pos() == x.Pos() && obj.Name() == x.Comment {
+					g.localAddr[spec] = v
+					g.memLocals[spec] = true
+				}
+			}
+		}
 		if pfx := localPrefix(x); pfx != "" {
 			// a local whose address never leaves the function: no callee can write
 			// it, so it lives in components of its own
@@ -599,6 +610,17 @@ func (g *Gen) execInstr(in ssa.Instruction) error {
 		g.abstract("Send (channel operations are not modelled)", x.Pos())
 	case *ssa.Go:
 		g.abstract("Go (spawned goroutine's effects are not modelled): "+callName(&x.Call), x.Pos())
+		{
+			var args []*Val
+			for _, a := range x.Call.Args {
+				args = append(args, g.val(a))
+			}
+			var recv *Val
+			if x.Call.IsInvoke() {
+				recv = g.val(x.Call.Value)
+			}
+			g.checkCallSpecs(&x.Call, in, recv, args, "go:")
+		}
 		g.noteCall(&x.Call, in, nil, "go:")
 	case *ssa.Defer:
 		k := len(g.defers)
@@ -1157,6 +1179,9 @@ func (g *Gen) execDebugRef(x *ssa.DebugRef) {
 		} else {
 			return
 		}
+	}
+	if g.memLocals[name] {
+		return // value is read from its cell
 	}
 	if x.IsAddr {
 		g.localAddr[name] = val
